@@ -35,6 +35,7 @@
  *     shortread <max_bytes>                    reads of *.capy return at most this many bytes
  *     eintr_read <ordinal>  eintr_open <ordinal>   (1-based, counted over *.capy sources)
  *     shortwrite_obj <max_bytes>  shortwrite_stdout <max_bytes>
+ *     eintr_write_obj <k>   eintr_write_stdout <k>     the k-th write fails once with EINTR
  *     fail_open <ordinal|0> <substring|*> <errno>     ordinal over *.capy opens; 0 = any
  *     fail_read <ordinal|0> <substring|*> <errno>
  *     fail_stat <ordinal|0> <substring|*> <errno>     ordinal over stat calls on *.capy paths
@@ -96,6 +97,7 @@ static long fake_pid = 0;
 
 static long shortread = 0, eintr_read = 0, eintr_open = 0;
 static long shortwrite_obj = 0, shortwrite_stdout = 0;
+static long eintr_write_obj = 0, eintr_write_stdout = 0;   /* the k-th write fails once with EINTR */
 static struct rule fail_open_rules[MAX_RULES], fail_read_rules[MAX_RULES], fail_stat_rules[MAX_RULES];
 static int n_fail_open = 0, n_fail_read = 0, n_fail_stat = 0;
 static long fail_write_obj_at = 0;
@@ -252,6 +254,8 @@ static void read_plan(const char *path) {
         else if (!strcmp(key, "eintr_open")) sscanf(rest, "%ld", &eintr_open);
         else if (!strcmp(key, "shortwrite_obj")) sscanf(rest, "%ld", &shortwrite_obj);
         else if (!strcmp(key, "shortwrite_stdout")) sscanf(rest, "%ld", &shortwrite_stdout);
+        else if (!strcmp(key, "eintr_write_obj")) sscanf(rest, "%ld", &eintr_write_obj);
+        else if (!strcmp(key, "eintr_write_stdout")) sscanf(rest, "%ld", &eintr_write_stdout);
         else if (!strcmp(key, "fail_open")) add_rule(fail_open_rules, &n_fail_open, rest);
         else if (!strcmp(key, "fail_read")) add_rule(fail_read_rules, &n_fail_read, rest);
         else if (!strcmp(key, "fail_stat")) add_rule(fail_stat_rules, &n_fail_stat, rest);
@@ -552,6 +556,14 @@ static ssize_t write_common(int fd, const void *buf, size_t n) {
     if (fd == 1) {
         n_stdout_write++;
         maybe_crash("stdout_write", n_stdout_write, "stdout");
+        if (eintr_write_stdout > 0 && n_stdout_write == eintr_write_stdout) {
+            /* interrupted before anything was written: legal, the caller has to retry */
+            eintr_write_stdout = 0;
+            n_stdout_write--;
+            logf_("write", "stdout", -1, "EINTR");
+            errno = EINTR;
+            return -1;
+        }
         size_t want = n;
         const char *inj = "-";
         if (shortwrite_stdout > 0 && want > (size_t)shortwrite_stdout) {
@@ -565,6 +577,13 @@ static ssize_t write_common(int fd, const void *buf, size_t n) {
     if (fd >= 0 && fd < MAX_FD && fdclass_of[fd] == FD_OBJ) {
         n_obj_write++;
         maybe_crash("obj_write", n_obj_write, fdpath[fd]);
+        if (eintr_write_obj > 0 && n_obj_write == eintr_write_obj) {
+            eintr_write_obj = 0;
+            n_obj_write--;
+            logf_("write", fdpath[fd], -1, "EINTR");
+            errno = EINTR;
+            return -1;
+        }
         if (fail_write_obj_at > 0 && n_obj_write >= fail_write_obj_at) {
             logf_("write", fdpath[fd], -1, errname(fail_write_obj_errno));
             errno = fail_write_obj_errno;
